@@ -26,6 +26,7 @@
 #include <unordered_map>
 #include <vector>
 #include <cxxabi.h>
+#include <dlfcn.h>
 #include <fcntl.h>
 #include <limits.h>
 #include <sys/stat.h>
@@ -84,6 +85,90 @@ static bool g_fired = false;
 static std::string g_swapTarget;
 static std::atomic<unsigned long> g_opens{0}, g_openEloop{0};
 
+// ---------------------------------------------------------------------------------------------------------------
+// Deterministic schedules at EVERY system-call boundary of one lookup (op `sched`).  The lookup's path-taking system calls are
+// recognised as they happen: status(candidate) and, if the candidate does not exist, the prefix loop of weakly_canonical
+// (phase WC, never split), realpath(candidate) [point C], then — after the last realpath of weakly_canonical returned —
+// the next stat = is_regular_file(resolved) [R], the next open = open(resolved) [O], the next stat = is_regular_file(gz) [G],
+// the next open = open(gz) [Z].  The armed mutation of the file system is carried out just BEFORE the system call of its point.
+// ---------------------------------------------------------------------------------------------------------------
+struct Sched
+{
+  bool active = false;
+  bool busy = false; // inside the mutation / inside a hook: the harness's own system calls are not the lookup's
+  char point = 0;
+  int needRealpath = 1; // 1: filesystem mode, 2: embedded-external (the first is weakly_canonical(EXTERNAL_DIR))
+  int realpathSeen = 0;
+  int phase = 0; // 0 WC, 1 after WC, 2 after R, 3 after O, 4 after G, 5 done
+  bool fired = false;
+  std::string candidateAbs;
+  std::function<void()> mutate;
+};
+static Sched g_s;
+
+static void schedFire(char pt)
+{
+  if (g_s.point == pt && !g_s.fired)
+  {
+    g_s.busy = true;
+    g_s.mutate();
+    g_s.busy = false;
+    g_s.fired = true;
+  }
+}
+
+static void hookStat()
+{
+  if (!g_s.active || g_s.busy) return;
+  if (g_s.phase == 1) { schedFire('R'); g_s.phase = 2; }
+  else if (g_s.phase == 3) { schedFire('G'); g_s.phase = 4; }
+}
+
+static void hookOpen()
+{
+  if (!g_s.active || g_s.busy) return;
+  if (g_s.phase == 2) { schedFire('O'); g_s.phase = 3; }
+  else if (g_s.phase == 4) { schedFire('Z'); g_s.phase = 5; }
+}
+
+extern "C" char* realpath(const char* path, char* resolved)
+{
+  using F = char* (*)(const char*, char*);
+  static F real = reinterpret_cast<F>(::dlsym(RTLD_NEXT, "realpath"));
+  const bool mine = g_s.active && !g_s.busy;
+  if (mine && g_s.phase == 0 && g_s.realpathSeen + 1 == g_s.needRealpath && g_s.candidateAbs == path) schedFire('C');
+  char* out = real(path, resolved);
+  if (mine && g_s.phase == 0 && ++g_s.realpathSeen == g_s.needRealpath) g_s.phase = 1;
+  return out;
+}
+
+extern "C" int stat(const char* path, struct stat* sb)
+{
+  using F = int (*)(const char*, struct stat*);
+  static F real = reinterpret_cast<F>(::dlsym(RTLD_NEXT, "stat"));
+  hookStat();
+  if (real) return real(path, sb);
+  return static_cast<int>(::syscall(SYS_newfstatat, AT_FDCWD, path, sb, 0));
+}
+
+extern "C" int stat64(const char* path, struct stat64* sb)
+{
+  hookStat();
+  return static_cast<int>(::syscall(SYS_newfstatat, AT_FDCWD, path, sb, 0));
+}
+
+extern "C" int __xstat(int, const char* path, struct stat* sb)
+{
+  hookStat();
+  return static_cast<int>(::syscall(SYS_newfstatat, AT_FDCWD, path, sb, 0));
+}
+
+extern "C" int __xstat64(int, const char* path, struct stat64* sb)
+{
+  hookStat();
+  return static_cast<int>(::syscall(SYS_newfstatat, AT_FDCWD, path, sb, 0));
+}
+
 extern "C" int open(const char* path, int flags, ...)
 {
   mode_t mode = 0;
@@ -94,6 +179,7 @@ extern "C" int open(const char* path, int flags, ...)
     mode = static_cast<mode_t>(va_arg(ap, int));
     va_end(ap);
   }
+  hookOpen();
   if (g_armed)
   {
     g_armed = false;
@@ -344,7 +430,8 @@ int main()
         try { st.a.emplace(Assets::fromDirectory(fs::path(st.rootArg), t[2] == "1")); }
         catch (const fs::filesystem_error&) { return "throw"; }
         return "ok " + vh::toHex(st.a->_fs->staticsRoot.string()) + " " + vh::toHex(st.a->_fs->templatesRoot.string()) +
-               " # rp=" + realpathHex(st.rootArg);
+               " # rp=" + realpathHex(st.rootArg) + " srp=" + realpathHex(st.rootArg + "/static") +
+               " trp=" + realpathHex(st.rootArg + "/templates");
       }
       if (t.size() == 5 && t[0] == "newemb" && vh::ofHex(t[1], a))
       {
@@ -397,7 +484,7 @@ int main()
         st.emb = std::move(e);
         st.isFs = false;
         st.a.emplace(Assets::fromEmbedded(st.emb->reg));
-        return "ok";
+        return "ok # erp=" + realpathHex(st.emb->externalDir);
       }
       if (t.size() == 2 && t[0] == "static" && vh::ofHex(t[1], a))
       {
@@ -434,6 +521,63 @@ int main()
         }
         g_armed = false;
         return o + (g_fired ? " swapped=1" : " swapped=0");
+      }
+      if ((t.size() == 6 || t.size() == 7) && t[0] == "sched" && (t[1] == "static" || t[1] == "template") && vh::ofHex(t[2], a) &&
+          t[3].size() == 1 && std::string("CROGZ").find(t[3][0]) != std::string::npos && t[4].size() == 1 && vh::ofHex(t[5], b))
+      {
+        // sched <static|template> <name> <point> <l|f|d|r> <path> [<data>]: one lookup; just before the system call of <point> the
+        // object at <path> is replaced by a link / file / directory or removed.
+        if (!st.a) return "no-instance";
+        c.clear();
+        if (t.size() == 7 && !vh::ofHex(t[6], c)) return "bad-op";
+        if ((t[4] == "l" || t[4] == "f") != (t.size() == 7)) return "bad-op";
+        const std::string n = str(a), mpath = str(b), mdata = str(c);
+        const char kind = t[4][0];
+        if (!inSandbox(mpath)) die("sched mutation outside the sandbox: " + mpath);
+        const bool tmpl = t[1] == "template";
+        std::string base;
+        if (st.isFs) base = tmpl ? st.a->_fs->templatesRoot.string() : st.a->_fs->staticsRoot.string();
+        else if (st.emb) base = st.emb->externalDir;
+        g_s = Sched{};
+        g_s.point = t[3][0];
+        g_s.needRealpath = st.isFs ? 1 : 2;
+        {
+          std::error_code ec;
+          g_s.candidateAbs = fs::absolute(fs::path(base) / fs::path(n), ec).string();
+        }
+        g_s.mutate = [kind, mpath, mdata]() {
+          // soft: where the parent is not a directory nothing can be created (the model's table entry is unreachable there too)
+          removeAt(mpath);
+          if (kind == 'd') (void)::mkdir(mpath.c_str(), 0755);
+          else if (kind == 'l') (void)::symlink(mdata.c_str(), mpath.c_str());
+          else if (kind == 'f')
+          {
+            int fd = static_cast<int>(::syscall(SYS_openat, AT_FDCWD, mpath.c_str(), O_WRONLY | O_CREAT | O_TRUNC | O_NOFOLLOW, 0644));
+            if (fd >= 0)
+            {
+              std::size_t off = 0;
+              while (off < mdata.size())
+              {
+                ssize_t w = ::write(fd, mdata.data() + off, mdata.size() - off);
+                if (w <= 0) break;
+                off += static_cast<std::size_t>(w);
+              }
+              ::close(fd);
+            }
+          }
+        };
+        std::string o;
+        g_s.active = true;
+        if (!tmpl) o = showStatic(st.a->getStatic(std::string_view(n)));
+        else
+        {
+          auto r = st.a->getTemplate(std::string_view(n));
+          o = r ? "some " + vh::toHex(std::string(*r)) : std::string("none");
+        }
+        g_s.active = false;
+        const bool fired = g_s.fired;
+        g_s = Sched{};
+        return o + (fired ? " fired=1" : " fired=0");
       }
       if (t.size() == 1 && t[0] == "reload")
       {
